@@ -77,6 +77,17 @@ def main(argv):
     return 0
 
 
+REPRO = '''import sys, json
+sys.path[:0] = [%(repo)r, %(home)r, %(home)r + '/.deps']
+from gpmc import core
+from gpmc.checks import %(mod)s as chk
+if hasattr(chk, 'prepare'): chk.prepare('quick', 0)
+sub = [s for s in chk.SUBCHECKS if s.name == %(sub)r][0]
+rec = core.Recorder(%(pid)r, [])
+core.eval_one(sub, json.loads(%(case)r), rec)
+assert not rec.viol, rec.viol[0]['msg']'''
+
+
 def replay(path):
     with open(path) as f:
         v = json.load(f)
@@ -97,9 +108,9 @@ def replay(path):
             print('VIOLATION property=%s replay=%s' % (pid, path))
             print('   %s | observed=%s expected=%s tol=%s' % (x['msg'], json.dumps(x['observed'])[:300],
                                                              json.dumps(x['expected'])[:300], x['tol']))
-        if hasattr(mod, 'repro'):
-            print('--- stand-alone reproduction ---')
-            print(mod.repro(v))
+        print('--- stand-alone reproduction (plain Python, no explorer) ---')
+        print(REPRO % {'repo': REPO, 'home': core.HOME, 'mod': pid.lower(), 'pid': pid, 'sub': v['subcheck'],
+                       'case': json.dumps(v['case'])})
         return 1
     print('replay: no violation (fixed or not reproducible on this tree)')
     return 0
